@@ -60,6 +60,7 @@ type Bound struct {
 	callSites  map[*ssa.Function]int // static call sites seen inside the closure
 	changed    bool
 	allowPre   func(fn *ssa.Function) bool
+	taintCall  func(call *ssa.Call) bool // additional taint sources (results of these calls)
 }
 
 func origin(f *ssa.Function) *ssa.Function {
@@ -634,9 +635,9 @@ func (a *fnA) checkCallPres() bool {
 // ---------------------------------------------------------------------------
 // global driver
 
-func newBound(p *Prog, funcs []*ssa.Function, taintParam func(*ssa.Function, *ssa.Parameter) bool, allowPre func(*ssa.Function) bool) *Bound {
+func newBound(p *Prog, funcs []*ssa.Function, taintParam func(*ssa.Function, *ssa.Parameter) bool, allowPre func(*ssa.Function) bool, taintCall func(*ssa.Call) bool) *Bound {
 	B := &Bound{P: p, funcs: funcs, inClosure: map[*ssa.Function]bool{}, fa: map[*ssa.Function]*fnA{},
-		contracts: map[*ssa.Function]*contract{}, taintParam: taintParam, callSites: map[*ssa.Function]int{}, allowPre: allowPre}
+		contracts: map[*ssa.Function]*contract{}, taintParam: taintParam, callSites: map[*ssa.Function]int{}, allowPre: allowPre, taintCall: taintCall}
 	for _, f := range funcs {
 		B.inClosure[f] = true
 	}
